@@ -23,7 +23,7 @@ def demo(seed, wt, tag):
             r = sh(f"bash {seed}/demo.sh {wt}", cwd=str(out), timeout=900)
             return r.returncode, (r.stdout + r.stderr)[-400:]
         cmd = meta.get("demo_build", "")
-        flags = " ".join(t for t in cmd.split() if t.startswith("-m") or t.startswith("-D") or t in ("-pthread",))
+        flags = " ".join(t for t in cmd.split() if t.startswith("-m") or t.startswith("-D") or t.startswith("-fsanitize") or t in ("-pthread", "-g"))
         r = sh(f"g++ -std=c++20 -O2 {flags} -I{wt}/include -I{wt}/src {seed}/demo.cpp -o {out}/demo", cwd=str(out), timeout=900)
         if r.returncode != 0:
             return 99, "demo does not compile: " + r.stderr[-400:]
